@@ -27,7 +27,7 @@ CASE_CPU_LIMIT = 60
 RULE = ("operation sequences on an empty CompartmentalSystemBuilder: 1-6 (quick) / 1-9 (thorough) distinctly named "
         "compartments (names include CENTRAL, METABOLITE, EFFECT, COMPLEX to reach the central-compartment branches) with "
         "optional bolus/infusion doses, input, lag time, bioavailability; random flows (distinct symbols, shared symbols, "
-        "rational multiples, Michaelis-Menten in the source amount; a few self-loops), 0-3 output flows; then up to 6 (12) "
+        "rational multiples, Michaelis-Menten in the source amount and occasionally in another compartment's amount; a few self-loops), 0-3 output flows; then up to 6 (12) "
         "seeded builder operations (add/remove compartment, add/remove flow, move/set/add/remove dose, set lag/F/input, "
         "subs with a controlled iteration order of the compartment set, to_dict/from_dict), some through stale compartment "
         "references. Everything is compared after every operation. non-trivial = at least 2 compartments and 1 flow at "
@@ -52,7 +52,7 @@ OUT = "@out"
 
 
 def budget(tier):
-    return int(os.environ.get("VERIF_BUDGET", 0)) or {"quick": 480, "thorough": 8000}[tier]
+    return int(os.environ.get("VERIF_BUDGET", 0)) or {"quick": 400, "thorough": 8000}[tier]
 
 
 # ---------------------------------------------------------------- generation
@@ -213,6 +213,10 @@ def corpus_cases():
                                              ["addflow", "CENTRAL", OUT, "CL/V"], ["addflow", "METABOLITE", OUT, "CLM/VM"],
                                              ["addflow", "ZETA", "CENTRAL", "KZ"], ["movedose", "DEPOT", "CENTRAL", None],
                                              ["rmc", "DEPOT"]]},
+        # a rate that depends on the amount of a compartment other than its source
+        {"kind": "ops", "seed": 17, "ops": [_c("CENTRAL", [B1]), _c("ALPHA"), _c("PERIPHERAL1"), ["addflow", "CENTRAL", "ALPHA", "K1"],
+                                             ["addflow", "ALPHA", "PERIPHERAL1", "VM/(KM + A_CENTRAL(t))"],
+                                             ["addflow", "CENTRAL", OUT, "CL/V"]]},
         # mixed bolus/infusion doses are re-sorted by the doses property when moved
         {"kind": "ops", "seed": 16, "ops": [_c("DEPOT", [B1, ["inf", "AMT", 2, "R1", None]]), _c("CENTRAL", [B2]),
                                              ["addflow", "DEPOT", "CENTRAL", "KA"], ["addflow", "CENTRAL", OUT, "K"],
@@ -497,6 +501,16 @@ def rates_commensurable(cs, order):
     return False
 
 
+def rate_uses_other_amount(cs, order):
+    """some flow's rate contains the amount function of a compartment other than its source"""
+    amounts = {sym_of(c.amount): c for c in order}
+    for u, v, r in cs._g.edges.data("rate"):
+        for f in sym_of(r).atoms(AppliedUndef):
+            if f in amounts and amounts[f] != u:
+                return True
+    return False
+
+
 def mon_des(step, cs, order, real, rng, mon, tags):
     names_map = {c.amount: c.name for c in order}
     eqs = [e._sympy_() for e in real["eqs"]]
@@ -523,7 +537,9 @@ def mon_des(step, cs, order, real, rng, mon, tags):
                 bad = f"input of {c.name} is {by3[c.name].input}, was {c.input}"
                 break
     if bad:
-        if rates_commensurable(cs, order):
+        if rate_uses_other_amount(cs, order):
+            cls = "des-rate-depends-on-other-amount"
+        elif rates_commensurable(cs, order):
             cls = "des-commensurable-outflows"
         else:
             cls = "des-not-equivalent"
@@ -628,6 +644,8 @@ def run_case(case, drv):
             if snapshot(sim.cb._g) != before:
                 mon.append({"cls": "refused-op-mutates", "what": f"step {len(real_steps)}: {op} raised {status[1]} but changed the builder"})
         sim.remember()
+        if w is None:
+            raise RuntimeError(f"harness: operation {op} failed before its wire form was built ({status})")
         wire_ops.append(w)
         cs = CompartmentalSystem(sim.cb)
         real = observe_real(cs)
@@ -686,6 +704,13 @@ def subs_map(which, cs, rng):
     return {s: s + "_N" for s in pick}
 
 
+def central_name(cs):
+    try:
+        return cs.central_compartment.name
+    except ValueError:
+        return "none"
+
+
 def do_subs(op, sim, rng, mon, tags, step):
     """CompartmentalSystem.subs with the iteration order of the compartment set fixed by the harness.
     Returns the wire op, and replaces the builder by one made from the substituted system."""
@@ -711,8 +736,8 @@ def do_subs(op, sim, rng, mon, tags, step):
     cs2r = run(list(reversed(order)))
     if cs2r.compartment_names != cs2.compartment_names:
         mon.append({"cls": "subs-depends-on-set-order", "what": f"step {step}: cs.subs({mp}) gives compartment order "
-                    f"{cs2.compartment_names} or {cs2r.compartment_names} (central {cs2.central_compartment.name} or "
-                    f"{cs2r.central_compartment.name}) depending on the iteration order of the set of compartments; before: "
+                    f"{cs2.compartment_names} or {cs2r.compartment_names} (central {central_name(cs2)} or "
+                    f"{central_name(cs2r)}) depending on the iteration order of the set of compartments; before: "
                     f"{cs.compartment_names}"})
     # monitor: flows, doses, lag, F mapped pointwise
     by2 = {c.name: c for c in cs2._g.nodes if c is not output}
@@ -793,6 +818,11 @@ def mon_frame(step, op, before, after, sim, mon, tags):
             ef.pop((nm, op[2]), None)
     else:
         nm, live = target(op[1])
+        if kind == "movedose" and not live:
+            # a source object that is not in the builder: the API does not say what happens (the code adds its
+            # doses to the destination); model and code are still compared by K, no frame is demanded
+            tags.append("movedose-stale-source")
+            return
         if live and nm in ec:
             doses = view_doses(ec[nm][2])
             if kind == "setdose":
